@@ -88,6 +88,18 @@ Print Assumptions C04_numeral_with_stray_byte_rejected.
 Theorem C04_int64_numeral_in_range : forall s v, parseInt64 s = Some v -> parse_signed s = Some v /\ - SIGN <= v < SIGN.
 Proof. exact parseInt64_shape. Qed.
 Print Assumptions C04_int64_numeral_in_range.
+(* the whole function, every byte string: whatever FromString accepts has (thousands separators removed, no E/e) before its
+   first '.' nothing, a lone '-' or a well-formed numeral, and the first D places of its fraction are decimal digits (the model,
+   like the code, ignores the bytes of a fraction beyond D places) - anything else takes the error path *)
+Theorem C04_from_string_accepts_only_numerals : forall places wide str v, fx_from_string places wide str = POk v ->
+  let s := filter (fun c => negb (c =? 44)) str in
+  str <> [] /\ existsb (fun c => (c =? 69) || (c =? 101)) s = false /\
+  let p0 := fst (split_dot s []) in
+  (p0 = [] \/ p0 = [45] \/ exists w, parse_signed p0 = Some w) /\
+  (forall fr, snd (split_dot s []) = Some fr ->
+     exists f, parse_signed (firstn (S places) ((49 :: fr) ++ repeat 48 (S places - length (49 :: fr)))) = Some f).
+Proof. exact from_string_accepts_shape. Qed.
+Print Assumptions C04_from_string_accepts_only_numerals.
 Example C04_ex_rejects : parse_signed [49; 50; 120] = None /\ parse_signed [45] = None /\ parse_signed [] = None /\
   parse_signed [45; 49; 50] = Some (-12) /\ parseInt64 [57;50;50;51;51;55;50;48;51;54;56;53;52;55;55;53;56;48;56] = None /\
   fx_from_string 2 false [49; 120; 46; 53] = PErr /\ fx_from_string 2 true [49; 46; 120] = PErr.
